@@ -106,7 +106,7 @@ fn add(agg: &mut Agg, prop: &str, run_seed: u64, scen: &Scenario, r: &Report) {
         else if v.property == prop { agg.violations.push((scen.clone(), v.clone())); }
         else { *agg.others.entry(format!("{}:{}", v.property, v.class)).or_default() += 1; }
     }
-    if agg.samples.len() < 3 && nontrivial { agg.samples.push(sample_of(scen, r)); }
+    if nontrivial && (agg.samples.len() < 3 || (agg.samples.len() < 5 && !scen.faults.is_empty() && agg.samples.iter().all(|x| x["faults"].as_array().map_or(true, |a| a.is_empty())))) { agg.samples.push(sample_of(scen, r)); }
 }
 
 fn shape_hash(s: &Scenario) -> u64 {
